@@ -28,7 +28,7 @@ impl Cfg {
         json!({
             "tasks": self.tasks.iter().map(|t| t.iter().map(|(o, k)| format!("{}(mod{})", opn[*o as usize], k)).collect::<Vec<_>>()).collect::<Vec<_>>(),
             "supplier_suspensions": self.susp,
-            "answers": self.answers.iter().map(|a| ["Ok", "NotFound", "ParseError"][*a as usize]).collect::<Vec<_>>(),
+            "answers": self.answers.iter().map(|a| ["Ok", "NotFound", "ParseError", "MissingDebugFileOrId", "LoadError"][*a as usize]).collect::<Vec<_>>(),
             "spurious_poll_budget": self.spurious,
             "subtree": self.part,
         })
@@ -70,6 +70,8 @@ impl SymbolSupplier for Mock {
         match self.answers[k as usize] {
             0 => Ok(LocateSymbolsResult { symbols: SymbolFile::from_bytes(SYM_OK).expect("mock symbols parse"), extra_debug_info: None }),
             1 => Err(SymbolError::NotFound),
+            3 => Err(SymbolError::MissingDebugFileOrId),
+            4 => Err(SymbolError::LoadError(std::io::Error::new(std::io::ErrorKind::PermissionDenied, "mock"))),
             _ => Err(SymbolError::ParseError("mock", 7)),
         }
     }
@@ -265,7 +267,7 @@ fn check(cfg: &Cfg, x: &Execution, b: &Built) -> Option<(String, String)> {
         let a = cfg.answers[*k as usize];
         let want = match a {
             0 => (true, false),
-            1 => (false, false),
+            1 | 3 | 4 => (false, false),
             _ => (true, true),
         };
         if (s.loaded_symbols, s.corrupt_symbols) != want {
@@ -471,6 +473,14 @@ fn configs(tier: Tier) -> Vec<Cfg> {
                 push(&ts, susp, vec![0, 0, 0, 0, 0, 1], 0, 0);
                 push(&ts, susp, vec![1, 0, 0, 0, 0, 2], 0, 0);
             }
+        }
+    }
+    // --- the other two failure kinds a supplier can answer with (no usable identifiers; an I/O error): remembered
+    // like any outcome, asked once
+    for ts in multisets(&s2, 2) {
+        for susp in 0..=1 {
+            push(&ts, susp, vec![3, 4], 1, 0);
+            push(&ts, susp, vec![4, 3], 0, 0);
         }
     }
     // --- 3 tasks x 1 lookup
